@@ -178,7 +178,7 @@ def mutants(rng, b, tier):
     quick = tier == "quick"
     # single-bit flips over the body
     nbits = len(body) * 8
-    step = max(1, nbits // (160 if quick else 100000))
+    step = max(1, nbits // (160 if quick else 6000))
     off = rng.randrange(step)
     for bit in range(off, nbits, step):
         m = bytearray(f)
@@ -284,26 +284,30 @@ def run_par(exe, cases, wd, tag, env=None, resilient=False, timeout=1500):
     if n == 0:
         return [], []
     k = min(NPAR, max(1, n // 20))
-    bounds = [n * i // k for i in range(k + 1)]
+    idxs = [list(range(w, n, k)) for w in range(k)]     # round robin: large files are spread evenly
     outs = [None] * k
     errs = []
 
     def work(w):
-        cs = cases[bounds[w]:bounds[w + 1]]
+        cs = [cases[i] for i in idxs[w]]
         if resilient:
             o, e = vlib.run_cases_resilient(exe, cs, wd, "%s%d" % (tag, w), timeout=timeout, env=env)
-            errs.extend((bounds[w] + i, x) for i, x in e)
+            errs.extend((idxs[w][i], x) for i, x in e)
         else:
             o, e = vlib.run_cases(exe, cs, wd, "%s%d" % (tag, w), timeout=timeout, env=env)
             if e.strip():
-                errs.append((bounds[w], e))
+                errs.append((idxs[w][0], e))
         outs[w] = o
     ths = [threading.Thread(target=work, args=(w,)) for w in range(k)]
     for t in ths:
         t.start()
     for t in ths:
         t.join()
-    return [x for o in outs for x in o], errs
+    res = [None] * n
+    for w in range(k):
+        for i, x in zip(idxs[w], outs[w]):
+            res[i] = x
+    return res, errs
 
 
 def run_both(cases, wd, impl, model):
@@ -401,12 +405,12 @@ def build_cases(rng, tier, wd, impl, variant="asan"):
         if b.kind.endswith("large") or b.kind.endswith("large+zdict") or b.kind in ("zstd-auto", "none-gen"):
             # larger files: a few mutants only
             ms = mutants(rng, b, "quick")
-            ms = rng.sample(ms, min(len(ms), 25 if tier == "quick" else 300))
+            ms = rng.sample(ms, min(len(ms), 25 if tier == "quick" else 120))
         else:
             ms = mutants(rng, b, tier)
         for mi, (tag, fb, resealed) in enumerate(ms):
             pp = patterns(rng, b, tier, k=mi)
-            use = pp if tier != "quick" else [pp[mi % len(pp)]]
+            use = [pp[(mi + j) % len(pp)] for j in range(3)] if tier != "quick" else [pp[mi % len(pp)]]
             if tier == "quick" and (tag.endswith("resealed") or tag.startswith("trunc")) and mi % 3 == 0:
                 use = use + [pp[(mi + 1) % len(pp)]]
             for p in use:
